@@ -54,7 +54,7 @@ def run_prop(prop):
         out.append((name, res, meta))
     return out
 
-with concurrent.futures.ThreadPoolExecutor(max_workers=4) as ex:
+with concurrent.futures.ThreadPoolExecutor(max_workers=int(os.environ.get("MUT_PAR", "4"))) as ex:
     list(ex.map(run_prop, sorted(byprop)))
 # the table is always built from everything on disk, so a partial re-run refreshes only its rows
 rows = []
